@@ -119,7 +119,12 @@ def native_batch(items, jobs=16):
 
 
 def known_match(entry, prop, obligation, shape, witness):
-    if entry["property"] != prop or entry["obligation"] != obligation:
+    if entry["property"] != prop:
+        return False
+    if "obligation_re" in entry:
+        if not re.fullmatch(entry["obligation_re"], obligation):
+            return False
+    elif entry["obligation"] != obligation:
         return False
     for k, v in entry.get("shape", {}).items():
         if shape.get(k) != v:
@@ -398,7 +403,13 @@ def main():
         if g["by_backend"].get("REFUTED") or g["by_backend"].get("UNDECIDED") or cn in undec_obl:
             continue
         discharged += 1
-    proof_obl = n_obl - bounded_obl
+    known_obl = set()
+    for x in cand + extra_viol:
+        obl = x["contract"] + "." + x["clause"]
+        if obl in obligations and not any((y["contract"] + "." + y["clause"]) == obl for y in violations):
+            if x.get("confirmed") is not False and not REGISTRY[x["contract"]].canary:
+                known_obl.add(obl)
+    proof_obl = n_obl - bounded_obl - len([o for o in known_obl if not obligations[o].get("bounded")])
 
     wall = time.time() - t0
     # ---------------- replay files + output lines
@@ -422,7 +433,7 @@ def main():
         x = next((y for y in xs if y["confirmed"] is True), xs[0])
         lines.append(f"VIOLATION property={a.prop} replay={path}" + ("" if x["confirmed"] is True else " no-failing-input-found"))
     for kid, h in known_hit.items():
-        lines.append(f"KNOWN-FINDING: property={a.prop} {h['entry']['obligation']} [{kid}] {h['entry']['what']} ({h['n']} refuted instance(s) match)")
+        lines.append(f"KNOWN-FINDING: property={a.prop} {h['entry'].get('obligation') or h['entry'].get('obligation_re')} [{kid}] {h['entry']['what']} ({h['n']} refuted instance(s) match)")
 
     # ---------------- report
     print(f"{a.prop} {a.tier}: contracts {len(names)} shapes {len(jobs)} paths {paths} obligations {n_obl} (proof {proof_obl}, discharged {discharged}; bounded {bounded_obl}) "
@@ -484,6 +495,7 @@ def main():
                 stub_evaluations=stub_calls,
                 refuted_instances=len(refuted) + len(unexpected), undecided=len(undec),
                 known_findings_matched={k: h["n"] for k, h in known_hit.items()},
+                obligations_refuted_and_listed_as_known_findings=sorted(known_obl),
                 canaries=dict(run=len(canaries), refuted_and_replayed=len(canaries) - len(canary_bad)),
                 native_crosscheck=dict(what="the same contract text evaluated natively (fresh CPython, real code, no models) on random contents", evaluations=native_evals, by_contract=native_by_contract, failures=len(native_fail), disagreements_with_symbolic_verdict=len(unsound) + len(engine_disagreements)),
                 bounded_parts=meta.get("bounded_parts", []),
